@@ -1760,6 +1760,24 @@ class Inliner:
             site = self._site(s.value.value, fq, mn, cls, chain)
             if site and not _has_return(site[2][0]):
                 return self._inline(s, s.value.value, site, mode=("gen", None))
+        # v = yield from helper(args)  /  if (yield from helper(args)): ...   with helper a generator that ends in `return X`:
+        # the helper's statements with `v = X` in place of the return
+        if isinstance(s, ast.If) and isinstance(s.test, ast.YieldFrom) and isinstance(s.test.value, ast.Call):
+            site = self._site(s.test.value, fq, mn, cls, chain)
+            if site and _has(site[2][0], (ast.Yield, ast.YieldFrom)):
+                self.counter += 1
+                tmp = "_yf%d" % self.counter
+                asg = ast.fix_missing_locations(ast.copy_location(ast.Assign(targets=[ast.Name(id=tmp, ctx=ast.Store())], value=s.test), s))
+                rep = self._inline(asg, s.test.value, site, mode=("genassign", ast.Name(id=tmp, ctx=ast.Store())))
+                if rep is not None:
+                    s.test = ast.copy_location(ast.Name(id=tmp, ctx=ast.Load()), s.test)
+                    return rep + [s]
+        if isinstance(s, ast.Assign) and len(s.targets) == 1 and isinstance(s.targets[0], ast.Name) and isinstance(s.value, ast.YieldFrom) and isinstance(s.value.value, ast.Call):
+            site = self._site(s.value.value, fq, mn, cls, chain)
+            if site and _has(site[2][0], (ast.Yield, ast.YieldFrom)):
+                rep = self._inline(s, s.value.value, site, mode=("genassign", s.targets[0]))
+                if rep is not None:
+                    return rep
         # (b0) x = list(helper(args))  with helper a generator: the list is built where the helper yields
         if isinstance(s, ast.Assign) and len(s.targets) == 1 and isinstance(s.value, ast.Call) and isinstance(s.value.func, ast.Name) and s.value.func.id == "list" and len(s.value.args) == 1 and not s.value.keywords and isinstance(s.value.args[0], ast.Call):
             inner = s.value.args[0]
@@ -1957,7 +1975,13 @@ class Inliner:
         q, recv, (hfn, hcls, hfunc, hmn) = site
         kind, target = mode
         is_gen = _has(hfn, (ast.Yield, ast.YieldFrom))
-        if is_gen != (kind == "gen"):
+        if kind == "genassign":
+            # the generator's value: a single `return X` as its last statement
+            rets_ = _returns_in(hfn)
+            if not is_gen or len(rets_) != 1 or rets_[0] is not hfn.body[-1] or rets_[0].value is None:
+                return None
+            kind = "assign"
+        elif is_gen != (kind == "gen"):
             return None
         body, exprmap, pre, ok = self._bind(call, hfn, recv, q)
         if not ok:
